@@ -104,6 +104,16 @@ def run(tier):
                 sc = delta.Scenario(cid, wd, B, T, sources=[c[1] for c in combo], rounds=0, final=False,
                                     name="B%d target %s, sources %s" % (bi, tn, "+".join(c[0] for c in combo)))
                 sc.write_files(); scs.append(sc)
+                if len(scs) % 4 == 1:
+                    # the same copy while read(2) delivers the source in short pieces (a pipe, a network file system, a signal):
+                    # chunks may then stay missing or end up failed, but a chunk marked valid has B's bytes on disk (DCopy, safety half)
+                    cid = "c%d" % len(scs)
+                    sc = delta.Scenario(cid, wd, B, T, sources=[c[1] for c in combo], rounds=0, final=False,
+                                        name="B%d target %s, sources %s read in short pieces" % (bi, tn, "+".join(c[0] for c in combo)))
+                    for si in range(len(combo)):
+                        sc.src_prep[si] = ["shim_cap {c} %d" % (7, 1000, 20000)[(len(scs) // 4 + si) % 3]]
+                    sc.capped = True
+                    sc.write_files(); scs.append(sc)
         # state carried on the SOURCE context: its per-chunk marks were set by earlier calls (a checksum-only match against
         # another file, a validation before the file changed, an earlier copy) and say nothing about the bytes it holds now -
         # a chunk is used only if the source's bytes hash to the checksum at the time of the copy
@@ -201,6 +211,8 @@ def run(tier):
             # a source that does not open is skipped by the caller; that is fine (nothing may change then)
             pass
         for x in t:
+            if getattr(sc, "capped", False) and x["op"] == "copy":
+                x["op"] = "copyf"
             trace.append(x); owner.append(sc.cid)
         ck.case(sc.name)
     # ---- checksum-only matching (zck_find_matching_chunks)
